@@ -173,6 +173,12 @@ def finish(pid, prop, tier, seed, results, summaries, problems, wall):
             unknown.append(r)
     inconc = [r for r in results if r["st"] == "inconc"]
 
+    # triage aid: every violation of the last run (listed or not), one JSON line each
+    ddir = os.path.join(env.VERIF, "out", "last")
+    os.makedirs(ddir, exist_ok=True)
+    with open(os.path.join(ddir, "%s-%s.viol.jsonl" % (pid, tier)), "w") as fd:
+        for r in viols:
+            fd.write(json.dumps({"sig": r.get("sig"), "msg": r.get("msg"), "cls": r.get("cls")}, ensure_ascii=False, default=str) + "\n")
     # replay files for unlisted violations
     rdir = os.path.join(env.VERIF, "replays", pid)
     out_lines = []
